@@ -43,7 +43,8 @@ WithExtras(p, x) == CASE x = "none" -> p [] x = "front" -> <<"unknown">> \o p []
 
 \* element-level deviation: which element (top-level or TCB), what happens to it
 Targets == TopKinds \cup {"c1", "c2", "c16", "pcesvn", "cpusvn"}
-Devs == {"none", "class", "missing", "dupSame", "dupOther"}
+Devs == {"none", "class", "missing", "missingDup", "dupSame", "dupOther"}
+\*   missingDup  the element is replaced by a second copy of a neighbouring element (counts stay the same, one OID twice, one absent)
 \*   missing  the element is replaced by an element of unknown OID (counts stay the same)
 \*   dupSame  the element occurs twice with the same value; dupOther twice with different values (first one is the listed value)
 
@@ -61,6 +62,7 @@ WellFormedCase(c) ==
   /\ (c.cls = "badLen" => c.target \in {"ppid", "pceid", "fmspc", "cpusvn"})
   /\ (c.cls = "nested" => c.target \in {"ppid", "pceid", "fmspc"})
   /\ (c.target = "tcb" => c.dev \in {"none", "missing", "dupSame"})
+  /\ (c.dev = "missingDup" => c.target \in {"c1", "c2", "c16", "pcesvn", "ppid", "fmspc"})
 
 (* ------------------------------ declarative result ---------------------------------- *)
 \* "values": exactly the encoded values;  "error";  "either": the statement does not say (conflicting duplicates)
@@ -70,7 +72,7 @@ Expected(c) ==
     [] c.dev = "class" /\ c.cls = "trailing" -> "valuesOrError"   \* extra data after a correctly encoded value inside its element:
                                                     \* the value itself is intact; the statement only forbids a wrong value
     [] c.dev = "class" -> "error"                   \* does not fit / wrongly sized / wrong type
-    [] c.dev = "missing" -> "error"                 \* never a silently wrong (zero / empty) value
+    [] c.dev \in {"missing", "missingDup"} -> "error"   \* never a silently wrong (zero / empty) value
     [] c.dev = "dupSame" -> "valuesOrError"
     [] c.dev = "dupOther" -> "either"
 
@@ -92,7 +94,7 @@ Outer == /\ pc = "outer"
 ElemFails(kind) == c.target = kind /\ c.dev = "class" /\ ~Fits(c.cls)
                    /\ ~(c.cls = "nested")                         \* DEV (F13): a nested right-sized octet string is unwrapped
                    /\ ~(c.cls = "trailing" /\ kind \in TcbKinds \ {"cpusvn"})   \* DEV: Go's asn1 ignores extra fields of a SEQUENCE
-Replaced(kind) == c.target = kind /\ c.dev = "missing"
+Replaced(kind) == c.target = kind /\ c.dev \in {"missing", "missingDup"}
 
 \* 2. fold over the top-level elements
 TopElem == /\ pc = "top" /\ i <= Len(TopSeq)
@@ -125,5 +127,5 @@ Allowed(exp, res) == CASE exp = "values" -> res = "values" [] exp = "error" -> r
 \* the modelled deviation F13 is the only place where the fold and the declarative result may differ
 ExactOrError == Done => (Allowed(Expected(c), result) \/ (c.dev = "class" /\ c.cls = "nested"))
 \* order independence: the result does not depend on top / extras / tcbOrder (all three are absent from Expected and from the fold's outcome)
-OrderBlind == Done => result = (IF c.struct # "none" \/ c.dev = "missing" \/ (\E k \in TopKinds \cup TcbKinds : ElemFails(k)) THEN "error" ELSE "values")
+OrderBlind == Done => result = (IF c.struct # "none" \/ c.dev \in {"missing", "missingDup"} \/ (\E k \in TopKinds \cup TcbKinds : ElemFails(k)) THEN "error" ELSE "values")
 =================================================================================
